@@ -218,6 +218,17 @@ void runDamage(const Opts& o, long idx, CaseLog& log) {
         // digest of what the object exposes (bounded: small objects only), so that differential checks can compare results, not just outcomes
         unsigned long long dg = 0; if (nf <= 64 && np <= 400) { try { dg = hashSnap(take(*c)); } catch (const std::exception&) { dg = 1; } }
         log.line("RES %ld ok snap=%016llx reads=%lu afterFail=%lu alloc=%lu frames=%zu params=%zu", idx, dg, g_hook.reads, g_hook.readsAfterFail, g_hook.allocBytes, nf, np + walked * 0);
+        if (o.geti("savecheck", 0) && nf <= 64 && np <= 400) {
+            // C14 on objects "reachable by loading" that no well-formed file produces: saving must not change them and must be repeatable
+            Snap before; bool ok = true; try { before = take(*c); } catch (const std::exception&) { ok = false; }
+            if (ok) { std::string p1 = o.out + "/sv_" + std::to_string(idx) + "_a.c3d", p2 = o.out + "/sv_" + std::to_string(idx) + "_b.c3d";
+                Outcome s1, s2; log.pre("write", "loaded_from_perturbed_file"); VF_TRY(s1, c->write(p1));
+                Snap after; try { after = take(*c); } catch (const std::exception&) { ok = false; }
+                log.line("CNT c14_perturbed_objects_saved 1");
+                if (ok && after != before) { std::vector<std::string> d = diff(before, after, 4); std::string all; for (size_t i = 0; i < d.size(); ++i) all += d[i] + "; "; log.viol("C14", "save_changed_object/loaded_from_perturbed_file", mut + ": " + all); }
+                if (!s1.threw) { VF_TRY(s2, c->write(p2)); if (s2.threw) log.viol("C14", "second_save_refused/loaded_from_perturbed_file", mut + ": " + s2.cls); else if (readFileBytes(p1) != readFileBytes(p2)) log.viol("C14", "two_saves_differ/loaded_from_perturbed_file", mut); }
+                unlink(p1.c_str()); unlink(p2.c_str()); }
+        }
         log.pre("destroy"); c.reset();
     }
 }
